@@ -112,6 +112,43 @@ fn out_cells3_opt(r: Result<Vec<(Option<f64>, Option<f64>, Option<f64>)>, u8>) -
     }
 }
 
+/// like vh::guarded, but keeps the panic message: the audit corner cases compare WHICH check of the code fired
+/// (0 = none, 1 = the window assertion, 2 = the length assertion of the index bodies, 9 = anything else)
+fn guarded_id<R>(f: impl FnOnce() -> R + std::panic::UnwindSafe) -> (Result<R, u8>, Cell) {
+    use std::sync::Mutex;
+    static LAST: Mutex<String> = Mutex::new(String::new());
+    std::panic::set_hook(Box::new(|info| {
+        let mut s = String::new();
+        if let Some(m) = info.payload().downcast_ref::<&str>() {
+            s.push_str(m)
+        } else if let Some(m) = info.payload().downcast_ref::<String>() {
+            s.push_str(m)
+        }
+        *LAST.lock().unwrap() = s;
+    }));
+    let r = std::panic::catch_unwind(f);
+    let _ = std::panic::take_hook();
+    match r {
+        Ok(v) => (Ok(v), Cell::Int(0)),
+        Err(_) => {
+            let msg = LAST.lock().unwrap().clone();
+            if msg.contains("must not be shorter") {
+                (Err(2), Cell::Int(2))
+            } else if msg.contains("window must be greater") {
+                (Err(2), Cell::Int(1))
+            } else {
+                (Err(vh::panic_kind(&msg)), Cell::Int(9))
+            }
+        }
+    }
+}
+fn with_id<R>(g: (Result<R, u8>, Cell), f: impl FnOnce(Result<R, u8>) -> Vec<Cell>) -> Vec<Cell> {
+    let (r, id) = g;
+    let mut v = vec![id];
+    v.extend(f(r));
+    v
+}
+
 fn to_opt(xs: &[f64]) -> Vec<Option<f64>> {
     xs.iter().map(|x| if x.is_nan() { None } else { Some(*x) }).collect()
 }
@@ -463,6 +500,86 @@ fn main() {
                     let xi: Vec<i32> = xs.iter().map(|x| *x as i32).collect();
                     em.case(&cmp, &tags("i32", "vec"), &desc("i32", "vec"), || term("f", true, &xs_coq),
                         || out_cells(guarded(|| call1!(fi_, xi, w, mp, Vec<f64>))));
+                }
+            }
+        }
+    }
+    // =========================== audit corner inputs (Props/C04.v (8), (9)) ====================
+    // window 0 and series of UNEQUAL length through every two-series entry point: the index body (Vec, caller
+    // buffer) asserts `other.len() >= len` first and then the window; the iterator body (VecDeque returned)
+    // asserts the window on the first series only and evaluates the common prefix.
+    {
+        let vals_a = [1.5, -2.0, f64::NAN, 4.25, 0.5, -3.0];
+        let vals_b = [0.25, 3.0, -1.0, f64::NAN, 2.0, 7.5];
+        let lens: [(usize, usize); 9] = [(0, 0), (0, 2), (1, 0), (2, 1), (1, 3), (3, 2), (2, 4), (3, 3), (4, 6)];
+        for (la, lb) in lens.iter().cloned() {
+            let a: Vec<f64> = vals_a[..la].to_vec();
+            let b: Vec<f64> = vals_b[..lb].to_vec();
+            let (a_coq, b_coq) = (coq_fs(&a), coq_fs(&b));
+            let (ao, bo) = (to_opt(&a), to_opt(&b));
+            let (ao_coq, bo_coq) = (coq_os(&ao), coq_os(&bo));
+            let rel = if lb < la { "second_shorter" } else if lb > la { "second_longer" } else { "equal" };
+            for w in 0..=3usize {
+                for mp in [None, Some(0usize), Some(1)] {
+                    let mp_coq = coq_opt(&mp, |m| coq_nat(*m));
+                    for (fi, fname) in FN2.iter().enumerate() {
+                        let fi_ = fi as i32;
+                        let cmp = "custom:chk:1e-7,64".to_string();
+                        let tags = |ty: &str, be: &str| format!(
+                            "fn={} ty={} be={} len={} wrel={} mp={} lens={} style=corner{}",
+                            fname, ty, be, la, if w == 0 { "zero" } else { wrel(w, la) }, mp_tag(w.max(1), mp), rel,
+                            if la == 0 { " nt=0" } else { "" });
+                        let desc = |ty: &str, be: &str| format!("fn={} ty={} be={} w={} mp={:?} a={:?} b={:?}", fname, ty, be, w, mp, a, b);
+                        let term = |suffix: &str, body: bool, x: &str, y: &str| format!(
+                            "(run_two_chk_{} {} {} {} {} {} {})", suffix, fi, coq_bool(body), coq_nat(w), mp_coq, x, y);
+                        if fi == 4 {
+                            em.case(&cmp, &tags("f64", "vec"), &desc("f64", "vec"), || term("ff", true, &a_coq, &b_coq),
+                                || with_id(guarded_id(|| { let r: Vec<(f64, f64, f64)> = a.ts_vregx_all(&b, w, mp); r }), out_cells3));
+                            em.case(&cmp, &tags("f64", "deque"), &desc("f64", "deque"), || term("ff", false, &a_coq, &b_coq),
+                                || { let (da, db): (VecDeque<f64>, VecDeque<f64>) = (a.iter().cloned().collect(), b.iter().cloned().collect());
+                                     with_id(guarded_id(|| { let r: Vec<(f64, f64, f64)> = da.ts_vregx_all(&db, w, mp); r }), out_cells3) });
+                            continue;
+                        }
+                        em.case(&cmp, &tags("f64", "vec"), &desc("f64", "vec"), || term("ff", true, &a_coq, &b_coq),
+                            || with_id(guarded_id(|| call2!(fi_, a, &b, w, mp, Vec<f64>)), out_cells));
+                        em.case(&cmp, &tags("f64", "deque"), &desc("f64", "deque"), || term("ff", false, &a_coq, &b_coq),
+                            || { let (da, db): (VecDeque<f64>, VecDeque<f64>) = (a.iter().cloned().collect(), b.iter().cloned().collect());
+                                 with_id(guarded_id(|| call2!(fi_, da, &db, w, mp, Vec<f64>)), out_cells) });
+                        em.case(&cmp, &tags("f64", "vec_to"), &desc("f64", "vec_to"), || term("ff", true, &a_coq, &b_coq),
+                            || with_id(guarded_id(|| call2_to!(fi_, a, &b, w, mp)), out_cells));
+                        em.case(&cmp, &tags("f64", "deque_to"), &desc("f64", "deque_to"), || term("ff", true, &a_coq, &b_coq),
+                            || { let (da, db): (VecDeque<f64>, VecDeque<f64>) = (a.iter().cloned().collect(), b.iter().cloned().collect());
+                                 with_id(guarded_id(|| call2_to!(fi_, da, &db, w, mp)), out_cells) });
+                        em.case(&cmp, &tags("optf64", "vec"), &desc("optf64", "vec"), || term("oo", true, &ao_coq, &bo_coq),
+                            || with_id(guarded_id(|| call2!(fi_, ao, &bo, w, mp, Vec<Option<f64>>)), out_cells_opt));
+                        em.case(&cmp, &tags("optf64_x_f64", "deque"), &desc("optf64_x_f64", "deque"), || term("of", false, &ao_coq, &b_coq),
+                            || { let da: VecDeque<Option<f64>> = vh::wrapped_deque(&ao);
+                                 with_id(guarded_id(|| call2!(fi_, da, &b, w, mp, Vec<f64>)), out_cells) });
+                    }
+                }
+            }
+        }
+        // the one-series family with window 0
+        for la in 0..=2usize {
+            let xs: Vec<f64> = vals_a[..la].to_vec();
+            let xs_coq = coq_fs(&xs);
+            for mp in [None, Some(0usize)] {
+                let mp_coq = coq_opt(&mp, |m| coq_nat(*m));
+                for (k, fname) in FN1.iter().enumerate() {
+                    let fi = 8 + k;
+                    let fi_ = fi as i32;
+                    let cmp = "custom:sing:1e-7,64".to_string();
+                    let tags = |be: &str| format!("fn={} ty=f64 be={} len={} wrel=zero mp={} style=corner{}",
+                        fname, be, la, mp_tag(1, mp), if la == 0 { " nt=0" } else { "" });
+                    let desc = |be: &str| format!("fn={} ty=f64 be={} w=0 mp={:?} xs={:?}", fname, be, mp, xs);
+                    let term = |body: bool| format!("(run_trend_f {} {} {} {} {})", fi, coq_bool(body), coq_nat(0), mp_coq, xs_coq);
+                    em.case(&cmp, &tags("vec"), &desc("vec"), || term(true),
+                        || out_cells(guarded(|| call1!(fi_, xs, 0, mp, Vec<f64>))));
+                    em.case(&cmp, &tags("deque"), &desc("deque"), || term(false),
+                        || { let d: VecDeque<f64> = vh::wrapped_deque(&xs);
+                             out_cells(guarded(|| call1!(fi_, d, 0, mp, Vec<f64>))) });
+                    em.case(&cmp, &tags("vec_to"), &desc("vec_to"), || term(true),
+                        || out_cells(guarded(|| call1_to!(fi_, xs, 0, mp))));
                 }
             }
         }
